@@ -5,7 +5,8 @@
  *   r ctx <w> [noptr]          mpt_reply_deferrable(w, send_cb, transport)   (noptr: transport pointer NULL)
  *   r arm <hex>                convert(TypeReplyDataPtr) + mpt_reply_set(rd, len, bytes)
  *   r creply <code> <text-hex> mpt_context_reply(rc, code, "%s", text)
- *   r probe                    convert(0), convert(unknown), clone, addref/unref of the context object
+ *   r probe                    convert(0), convert(unknown), clone of the context object
+ *   r reref                    addref + unref of the context object (metatype reference taken and released)
  *   r reply <hex|none>         convert(TypeReplyPtr) + rc->reply(rc, msg)
  *   r defer                    rc->defer(rc)  -> handle token h<k>
  *   r dreply <k> <hex|none>    handle k ->reply(msg)
@@ -464,12 +465,18 @@ int main(void)
 			int r1 = MPT_metatype_convert(ctx, 0, 0);
 			int r2 = MPT_metatype_convert(ctx, 'x', &p);
 			void *cl = ctx->_vptr->clone(ctx);
-			uintptr_t ref = ctx->_vptr->addref(ctx);
-			if (ref) ctx->_vptr->unref(ctx);       /* an extra reference is dropped like a deferred handle's */
 			char v[128];
-			snprintf(v, sizeof(v), "ok types=%02x%02x conv0=%d,%d unknown=%s clone=%s ref=%lu %s", fmt ? fmt[0] : 0, fmt ? fmt[1] : 0, r0, r1,
-			         r2 < 0 ? drv_errname(r2) : "ok", cl ? "yes" : "no", (unsigned long) ref, ctx_snapshot(0) ? "ctx=intact" : "ctx=CHANGED");
+			snprintf(v, sizeof(v), "ok types=%02x%02x conv0=%d,%d unknown=%s clone=%s %s", fmt ? fmt[0] : 0, fmt ? fmt[1] : 0, r0, r1,
+			         r2 < 0 ? drv_errname(r2) : "ok", cl ? "yes" : "no", ctx_snapshot(0) ? "ctx=intact" : "ctx=CHANGED");
 			result(v, 0);
+		}
+		else if (!strcmp(op, "reref") && drv_nw == 2) {
+			/* a second metatype reference is taken and released again: the release of ANY metatype reference while
+			 * others remain counts as the owner going away (default reply for the pending request, transport detached) */
+			if (!ctx) { puts("bad-op"); continue; }
+			uintptr_t ref = ctx->_vptr->addref(ctx);
+			if (ref) ctx->_vptr->unref(ctx);
+			result(ref ? "ok" : "refused", 0);
 		}
 		else if (!strcmp(op, "creply") && drv_nw == 4) {
 			/* mpt_context_reply(rc, code, "%s", text): answer header + text through the context */
@@ -486,6 +493,24 @@ int main(void)
 			r = dlen ? mpt_context_reply(rc, code, "%s", txt) : mpt_context_reply(rc, code, 0);
 			free(txt);
 			result(r < 0 ? "refused" : "ok", r);
+		}
+		else if (!strcmp(op, "lreply") && drv_nw == 4) {
+			/* mpt_context_reply without a context: the text goes to stderr (sent to /dev/null here), no transport call */
+			long code; char *e;
+			code = strtol(drv_w[2], &e, 10);
+			if (!ctx || *e || e == drv_w[2] || drv_w[2][0] == '+' || code < -1000 || code > 1000 || drv_parse_data(drv_w[3], &dat, &dlen, &isnull) || isnull
+			    || dlen > 600 || (dlen && memchr(dat, 0, dlen))) { puts("bad-op"); free(dat); continue; }
+			char *txt = malloc(dlen + 1);
+			memcpy(txt, dat, dlen); txt[dlen] = 0;
+			free(dat);
+			fflush(stderr);
+			int keep = dup(2), nul = open("/dev/null", O_WRONLY);
+			if (nul >= 0) { dup2(nul, 2); close(nul); }
+			int r = dlen ? mpt_context_reply(0, code, "%s", txt) : mpt_context_reply(0, code, 0);
+			fflush(stderr);
+			if (keep >= 0) { dup2(keep, 2); close(keep); }
+			free(txt);
+			result(r < 0 ? "refused" : (r ? "logged" : "ok"), r);
 		}
 		else if (!strcmp(op, "arm") && drv_nw == 3) {
 			/* `zero:<n>`: mpt_reply_set with a null data pointer (n zero bytes) */
